@@ -47,6 +47,10 @@ func handle(f []string) string {
 		return traceParity(f)
 	case "sresp":
 		return sidxRespIter(f)
+	case "fbt":
+		return findBlockTagOp(f)
+	case "splan":
+		return streamPlanParity(f)
 	}
 	return "bad-op"
 }
